@@ -149,6 +149,19 @@ fn explain_output_diff(
     )
 }
 
+/// Root-cause name of a difference between the diagnostics of the two runs.
+fn diag_signature(warm: &CliResult, cd: &[vproj::Diag], wd: &[vproj::Diag]) -> &'static str {
+    let errs = |v: &[vproj::Diag]| -> Vec<vproj::Diag> {
+        v.iter().filter(|x| x.severity == "error").cloned().collect()
+    };
+    if warm.code != Some(0) && errs(cd) == errs(wd) && !errs(cd).iter().all(|e| e.code.is_empty()) {
+        // the run failed on an error; only the accompanying warnings differ
+        "diagnostics/warnings-differ-on-run-aborted-by-error"
+    } else {
+        "diagnostics/unexplained"
+    }
+}
+
 /// Multiset difference of two sorted diagnostic lists: (surplus in a, surplus in b).
 fn multiset_diff(a: &[vproj::Diag], b: &[vproj::Diag]) -> (Vec<String>, Vec<String>) {
     let mut count: BTreeMap<&vproj::Diag, i64> = BTreeMap::new();
@@ -354,15 +367,7 @@ fn one_history(d: &mut Draw, thorough: bool) -> Outcome {
         }
         let (cd, wd) = (cold.diag_multiset(), warm.diag_multiset());
         if cd != wd {
-            let errs = |v: &Vec<vproj::Diag>| -> Vec<vproj::Diag> {
-                v.iter().filter(|x| x.severity == "error").cloned().collect()
-            };
-            let sig = if warm.code != Some(0) && errs(&cd) == errs(&wd) && !errs(&cd).iter().all(|e| e.code.is_empty()) {
-                // the run failed on an error; only the accompanying warnings differ
-                "diagnostics/warnings-differ-on-run-aborted-by-error"
-            } else {
-                "diagnostics/unexplained"
-            };
+            let sig = diag_signature(&warm, &cd, &wd);
             let (only_cold, only_warm) = multiset_diff(&cd, &wd);
             return Outcome::fail(
                 sig,
@@ -457,6 +462,7 @@ fn one_history(d: &mut Draw, thorough: bool) -> Outcome {
 /// `{"toml": text, "files": {rel: text}, "steps": [step…]}` with steps
 /// `{"op":"cmd","cmd":"build"|"check"}`,
 /// `{"op":"write","rel":…,"text":…,"kind":"plain"|"older"|"generic_user"}`,
+/// `{"op":"remove","rel":…}`,
 /// `{"op":"toml","text":…,"kind":"build_option"|"format"}`.
 /// Same oracle as the generated histories; the step kinds feed the same
 /// root-cause naming.
@@ -493,6 +499,11 @@ fn scripted(pl: &serde_json::Value) -> Outcome {
                 }
                 log.push(format!("write {rel} ({})", st["kind"].as_str().unwrap_or("plain")));
             }
+            "remove" => {
+                let rel = st["rel"].as_str().unwrap_or("");
+                ws.remove(rel);
+                log.push(format!("rm {rel}"));
+            }
             "toml" => {
                 ws.write("Veryl.toml", st["text"].as_str().unwrap_or(""));
                 match st["kind"].as_str().unwrap_or("") {
@@ -521,7 +532,7 @@ fn scripted(pl: &serde_json::Value) -> Outcome {
                 if cold.diag_multiset() != warm.diag_multiset() {
                     let (a, b) = multiset_diff(&cold.diag_multiset(), &warm.diag_multiset());
                     return Outcome::fail(
-                        "diagnostics/unexplained",
+                        diag_signature(&warm, &cold.diag_multiset(), &warm.diag_multiset()),
                         format!("scripted history: {log:#?}\nonly fresh: {a:#?}\nonly cached: {b:#?}"),
                         input,
                     );
@@ -597,7 +608,10 @@ pub fn gen_probe(n: usize) {
         let p = gen_project(&mut d, &GenOpts::default());
         let mut ws = Workspace::new("genreject", &p.cfg.name);
         let _ed = Editor::create(&p, &ws);
-        let r = ws.veryl(&["check"]);
+        let mut r = ws.veryl(&["check"]);
+        if r.code == Some(0) && r.diags.is_empty() {
+            r = ws.veryl(&["build"]);
+        }
         if r.code == Some(0) && r.diags.is_empty() {
             ok += 1;
         } else {
@@ -606,7 +620,7 @@ pub fn gen_probe(n: usize) {
                 .iter()
                 .find(|x| !x.code.is_empty())
                 .map(|x| format!("{} {}", x.code, x.message))
-                .unwrap_or_else(|| format!("exit {:?}: {}", r.code, r.tail(3)));
+                .unwrap_or_else(|| format!("exit {:?}: {} {}", r.code, r.panic_line(), r.tail(3)));
             println!("#{i} rejected: {k}\n   {}\n   kept {}", p.summary(), ws.root.display());
             *why.entry(k.chars().take(60).collect()).or_default() += 1;
             ws.scratch.keep();
